@@ -484,7 +484,12 @@ func TestVerifC16CycleExhaustive(t *testing.T) {
 		"Non-trivial = a cycle issued evictions in both phases and refused at least one")
 }
 
-func c16cyCase(h *vHarness, r *vRand, fx *c16cyForced) {
+func c16cyCase(h *vHarness, r *vRand, fx *c16cyForced) { c16cyCaseSrc(h, r, fx, nil) }
+
+// src != nil (harness "config", verif_c16_config_test.go): dry-run and the three caps are what a generated configuration
+// file DECLARES; the limiter and the dry-run switch of every (re)started Descheduler are built from that file by the
+// start-up path of cmd/koord-descheduler (src.start), and the oracle keeps judging against the declared values
+func c16cyCaseSrc(h *vHarness, r *vRand, fx *c16cyForced, src *c16cfSrc) {
 	dry := r.Chance(1, 8)
 	capNode, capNs, capTotal := c16cyCap(r), c16cyCap(r), c16cyCap(r)
 	if r.Bool() {
@@ -497,9 +502,15 @@ func c16cyCase(h *vHarness, r *vRand, fx *c16cyForced) {
 	if fx != nil {
 		dry, nprof, capNode, capNs, capTotal = false, 1, fx.capNode, fx.capNs, fx.capTotal
 	}
+	if src != nil {
+		dry, capNode, capNs, capTotal = src.dry, src.declared(0), src.declared(1), src.declared(2)
+		if !src.opStart(h) {
+			return // the file is rejected at start-up: no descheduler, nothing evicts
+		}
+	}
 	bind, mx := -1, -1
 	for _, c := range []int{capNode, capNs, capTotal} {
-		if c >= 0 {
+		if c >= 0 && c <= 10 { // a huge cap never binds: the generator treats it as none
 			if bind < 0 || c < bind {
 				bind = c
 			}
@@ -575,12 +586,15 @@ func c16cyCase(h *vHarness, r *vRand, fx *c16cyForced) {
 		w.mu.Lock()
 		w.handles = nil
 		w.mu.Unlock()
-		el := evictions.NewEvictionLimiter(c16cyPtr(capNode), c16cyPtr(capNs), c16cyPtr(capTotal))
+		el, dryRun := evictions.NewEvictionLimiter(c16cyPtr(capNode), c16cyPtr(capNs), c16cyPtr(capTotal)), dry
+		if src != nil {
+			el, dryRun = src.start()
+		}
 		informerFactory := informers.NewSharedInformerFactory(cs, 0)
 		stop := make(chan struct{})
 		stops = append(stops, stop)
 		d, err := New(cs, informerFactory, nil, func(string) events.EventRecorder { return &events.FakeRecorder{} }, stop,
-			WithEvictionLimiter(el), WithDryRun(dry), WithProfiles(profiles...), WithFrameworkOutOfTreeRegistry(reg))
+			WithEvictionLimiter(el), WithDryRun(dryRun), WithProfiles(profiles...), WithFrameworkOutOfTreeRegistry(reg))
 		if err != nil {
 			panic(fmt.Sprintf("c16cy: descheduler.New: %v", err))
 		}
@@ -596,7 +610,9 @@ func c16cyCase(h *vHarness, r *vRand, fx *c16cyForced) {
 	}
 	d, el := build()
 
-	h.Op("cy %d %d %d %d", vB(dry), capNode, capNs, capTotal)
+	if src == nil {
+		h.Op("cy %d %d %d %d", vB(dry), capNode, capNs, capTotal)
+	}
 	h.Tag(fmt.Sprintf("profiles=%d", nprof))
 	h.Tag(fmt.Sprintf("dry=%d", vB(dry)))
 
@@ -785,7 +801,11 @@ func c16cyCase(h *vHarness, r *vRand, fx *c16cyForced) {
 			h.Tag(fmt.Sprintf("cyc:killed-after=%s", c16cyBucket(len(attempts))))
 			prev = tl
 			d, el = build()
-			h.Op("cy %d %d %d %d", vB(dry), capNode, capNs, capTotal)
+			if src != nil {
+				src.opStart(h) // the restarted process reads its configuration file again
+			} else {
+				h.Op("cy %d %d %d %d", vB(dry), capNode, capNs, capTotal)
+			}
 			h.Tag("op:restart")
 		}
 
